@@ -17,10 +17,11 @@ RULE = ("seeded small VRPTWs with integer data (1..3 customers, planted feasible
         "non-trivial = reference problem feasible with >= 2 customers; distinct = distinct instance")
 ASSUMPTIONS = [
     "capacity not binding (capacity and initial load large, demands 0)",
+    "arc-based = reference needs the depot window to open exactly at 0 (the reference clock starts at 0; refuted in Lean otherwise), no depot self-arc, positive customer-to-customer times",
     "complete grid = all integers up to the largest finite window end + total travel (all data are integers, so every attainable service time is on it)",
     "sequence-based comparison uses instances with <= 2 customers so that 2^n enumeration stays exact (n <= 18)",
 ]
-PARTIAL = ["the end-to-end equalities of the four optima are decided by exhaustive optimisation on every run; Lean proves the cost-preserving correspondences between each formulation and reference route partitions (see theorem list) and the exact-penalty step (C04)"]
+PARTIAL = []
 BUDGET_S = {"quick": 200, "thorough": 1800}
 
 
